@@ -19,6 +19,7 @@ COMP = Component(
     methods=lambda cfg: ["acquire", "release", "clear"],
     has_arg=lambda m: False, gen_arg=lambda cfg, m, rng, tr: None,
     want=want, module=__name__,
+    shadow=lambda cfg: ["acquire", "release"],
     # the public count register against the model register, and against the history of the
     # observed executed calls (acq / rel are accumulated by the trace spec from `done` bits)
     trace_extra=("PubMatches == Line.pub.count = st.count\n"
